@@ -1086,6 +1086,18 @@ func genBuiltinDeferWrapper(n *node, in, out []func(*frame) reflect.Value, fn fu
 }
 
 func genFunctionWrapper(n *node) func(*frame) reflect.Value {
+	return genFunctionWrapperFor(n, false)
+}
+
+// genHostFunctionWrapper is genFunctionWrapper for a function which the host gets from
+// the global frame (result of Execute, Symbols). The function value belongs to no
+// evaluation: the cancellation of the one in progress, or of the last one, when the
+// host asks for it does not disable it.
+func genHostFunctionWrapper(n *node) func(*frame) reflect.Value {
+	return genFunctionWrapperFor(n, true)
+}
+
+func genFunctionWrapperFor(n *node, host bool) func(*frame) reflect.Value {
 	var def *node
 	var ok bool
 
@@ -1147,9 +1159,16 @@ func genFunctionWrapper(n *node) func(*frame) reflect.Value {
 			recv = bindRecv()
 		}
 
+		// The function value belongs to the evaluation which creates it, the one
+		// of f. In the global frame, that is the evaluation in progress now.
+		var e *epoch
+		if !host {
+			e = f.getEpoch()
+		}
+
 		return reflect.MakeFunc(funcType, func(in []reflect.Value) []reflect.Value {
 			// Allocate and init local frame. All values to be settable and addressable.
-			fr := newCallFrame(f, len(def.types))
+			fr := newCallFrame(n.interp, f, len(def.types), e)
 			d := fr.data
 			for i, t := range def.types {
 				d[i] = reflect.New(t).Elem()
@@ -2139,7 +2158,7 @@ func getFunc(n *node) {
 
 		fct := reflect.MakeFunc(n.typ.TypeOf(), func(in []reflect.Value) []reflect.Value {
 			// Allocate and init local frame. All values to be settable and addressable.
-			fr2 := newCallFrame(fr, len(n.types))
+			fr2 := newCallFrame(n.interp, fr, len(n.types), fr.getEpoch())
 			d := fr2.data
 			for i, t := range n.types {
 				d[i] = reflect.New(t).Elem()
